@@ -377,6 +377,61 @@ def nary(sk, *xs):
     return True
 
 
+def nary_interior(sk, *xs):
+    """3-ary union / intersection of fibers whose payloads are fibers: flat tuples, the operands' own sub-fibers for present sides, a fresh
+    *empty fiber instance* for every absent side"""
+    kind = sk["kind"]
+    fs = []
+    for f in range(3):
+        t, c, v = xs[3 * f:3 * f + 3]
+        fs.append(Fiber([t], [Fiber([c], [v])]))
+    snaps = [raw(f) for f in fs]
+    z = Fiber.union(*fs) if kind == "union" else Fiber.intersection(*fs)
+    got = [(c, pv(p)) for c, p in z]
+    present = [xs[3 * f + 2] != 0 for f in range(3)]
+    tops = [xs[3 * f] for f in range(3)]
+    cand = []
+    for f in range(3):
+        if present[f] and not any(tops[f] == c for c in cand):
+            cand.append(tops[f])
+    cand.sort()
+    exp = []
+    for c in cand:
+        sides = [present[f] and tops[f] == c for f in range(3)]
+        if kind == "union" or all(sides):
+            exp.append((c, sides))
+    if len(got) != len(exp):
+        return fail("yielded %d coordinates, expected %d" % (len(got), len(exp)))
+    fresh = []
+    for n, (c, sides) in enumerate(exp):
+        gc, gp = got[n]
+        if gc != c or not isinstance(gp, tuple):
+            return fail("coordinate / payload tuple")
+        vals = gp[1:] if kind == "union" else gp
+        if kind == "union":
+            mask = "".join(chr(ord("A") + f) for f in range(3) if sides[f])
+            if gp[0] != mask:
+                return fail("mask %r expected %r" % (gp[0], mask))
+        if len(vals) != 3:
+            return fail("payload tuple is not flat")
+        for f in range(3):
+            if sides[f]:
+                if vals[f] is not fs[f].payloads[0]:
+                    return fail("present side %d is not the operand's own sub-fiber" % f)
+            else:
+                if not isinstance(vals[f], Fiber) or len(vals[f].coords) != 0:
+                    return fail("absent side %d is %r, not a fresh empty fiber" % (f, vals[f]))
+                fresh.append(vals[f])
+    for i in range(len(fresh)):
+        for j in range(i + 1, len(fresh)):
+            if fresh[i] is fresh[j]:
+                return fail("two absent-side defaults are the same object")
+    for f in range(3):
+        if raw(fs[f]) != snaps[f]:
+            return fail("operand changed")
+    return True
+
+
 def _mk_nary(kind, ns, budget=None):
     ps, pre = [], []
     for f, n in enumerate(ns):
@@ -499,10 +554,15 @@ def u_rank(sk, lo, span, *xs):
     a.getRankAttrs().setFormat("U")
     b = Fiber(bc, bv)
     sa, sb = raw(a), raw(b)
-    z = (a & b) if op == "and" else (a | b)
+    if op == "lf":
+        z = Fiber.intersection(a, b, style="leader-follower")     # the leader's rank is 'U': every coordinate of its active range is a leader coordinate
+    else:
+        z = (a & b) if op == "and" else (a | b)
     got = [(c, pv(p)) for c, p in z]
     exp = []
-    if op == "and":
+    if op == "lf":
+        exp = list(range(lo, hi))
+    elif op == "and":
         for j in range(nb):
             if bv[j] != 0 and lo <= bc[j] < hi:
                 exp.append(bc[j])
@@ -519,7 +579,7 @@ def u_rank(sk, lo, span, *xs):
         if got[n][0] != exp[n]:
             return fail("coordinate differs")
         gp = got[n][1]
-        aval = gp[0] if op == "and" else gp[1]
+        aval = gp[0] if op in ("and", "lf") else gp[1]
         # the a side shows a's value at that coordinate (stored or default)
         want = 0
         for i in range(na):
@@ -568,7 +628,13 @@ def obligations(tier):  # noqa: F811
     for na, nb in ([(1, 1), (1, 2)] if q else [(1, 1), (1, 2), (2, 2)]):
         for flip in (False, True):
             obs.append(_mk_mixed2(na, nb, 2, flip))
-    for op in ("and", "or"):
+    for op in ("and", "or", "lf"):
         for na, nb in ([(0, 1), (1, 1), (1, 2)] if q else [(0, 1), (1, 1), (1, 2), (2, 2)]):
             obs.append(_mk_u(op, na, nb, 3 if q else 4))
+    for kind in ("union", "intersection"):
+        ps = []
+        pre = []
+        for f in range(3):
+            ps += ["t%d" % f, "c%d" % f, "v%d" % f]
+        obs.append(Ob("nary-interior/%s/1-1-1" % kind, "nary_interior", dict(kind=kind), ps, pre))
     return obs
